@@ -723,3 +723,8 @@ def _iso(ex, st, d, keep=None):
 
 SPEC.funcs["spec_match"] = lambda ex, st, sp, p: VBool(z3.Function("spec_match", I, S, B)(sp.e if not isinstance(sp, VOpt) else sp.val.e, _s(p)))
 SPEC.funcs["fs_child"] = lambda ex, st, d, n: VBool(z3.Function("fs_child", I, S, S, B)(st.fs, _s(d), _s(n)))
+
+
+@SPEC.fn("utc_filename_stamp")
+def _utc_filename_stamp(ex, st):
+    return VStr(z3.Function("utc_filename_stamp", I, S)(z3.Int("clock_now")))
